@@ -196,6 +196,45 @@ def run_stats(spec):
                 f"chi={chi}: (max_size, peak, write) ({ms_c}, {pk_c}, {w_c}) exceeds the uncapped ({ms}, {pk}, {w})"
             )
             break
+    # metamorphic: the NUMBERING of the tensors must not matter, for any cap -
+    # the same network with its tensors listed in another order, the same tree
+    # and the same step order give the same four estimates
+    if not viol and n >= 3:
+        k_ = 1 + spec.get("seed", 0) % (n - 1)
+        perm = list(range(k_, n)) + list(range(k_))  # new position j holds old tensor perm[j]
+        newpos = {old: j for j, old in enumerate(perm)}
+        inputs_b = [inputs[old] for old in perm]
+        nodes_a = [p_ for p_, _, _ in ref.ssa_nodes(ref.linear_to_ssa_ref([tuple(q) for q in spec["path"]], n), n)]
+        rank_a = {frozenset(nd): r_ for r_, nd in enumerate(nodes_a)}
+        rank_b = {frozenset(newpos[i] for i in nd): r_ for nd, r_ in rank_a.items()}
+        ssa_b = []
+        ids_b = {frozenset([j]): j for j in range(n)}
+        nxt = n
+        for p_, l_, r_ in ref.ssa_nodes(ref.linear_to_ssa_ref([tuple(q) for q in spec["path"]], n), n):
+            lb = frozenset(newpos[i] for i in l_)
+            rb = frozenset(newpos[i] for i in r_)
+            ssa_b.append((ids_b[lb], ids_b[rb]))
+            ids_b[lb | rb] = nxt
+            nxt += 1
+
+        def both(chi):
+            ta = ctg.ContractionTree.from_path(inputs, output, sizes, path=[tuple(q) for q in spec["path"]])
+            tb = ctg.ContractionTree.from_path(inputs_b, output, sizes, ssa_path=ssa_b)
+            sa = ta.compressed_contract_stats(chi=chi, order=lambda nd: rank_a[frozenset(nd)], compress_late=late)
+            sb = tb.compressed_contract_stats(chi=chi, order=lambda nd: rank_b[frozenset(nd)], compress_late=late)
+            return (sa.flops, sa.max_size, sa.peak_size, sa.write), (sb.flops, sb.max_size, sb.peak_size, sb.write)
+
+        for chi in (1, 2, 4):
+            ok, r = guarded(both, chi)
+            if not ok:
+                viol.append(f"compressed_contract_stats(chi={chi}) on the renumbered network raised {r}")
+                break
+            if r[0] != r[1]:
+                viol.append(
+                    f"chi={chi}: (flops, max_size, peak, write) {r[0]} but {r[1]} for the same network, tree and step "
+                    f"order with the tensors listed in another order (rotated by {k_})"
+                )
+                break
     # a compressed tree told its objective BY NAME must use that objective's cap
     # for its default figures (as reusable optimizers do when they rebuild a tree)
     if not viol and n >= 2 and sizes:
